@@ -239,6 +239,9 @@ func vEqBytes(a, b []byte) bool {
 
 func vGhostElapsed() time.Duration { return time.Since(vStart) }
 
+// vSlack is added to time bounds: nothing on the ghost clock, scheduling slack on a (possibly loaded) real machine.
+func vSlack() time.Duration { return 1500 * time.Millisecond }
+
 // vGhostGoroutines counts the goroutines the library started that are still alive (engine: its goroutine table;
 // natively: goroutine stacks containing the library's background functions).
 func vGhostGoroutines() int {
